@@ -3,6 +3,7 @@ package main
 import (
 	"fmt"
 	"go/token"
+	"go/types"
 	"sort"
 	"strings"
 
@@ -152,6 +153,29 @@ func buildEventGraph(c *Ctx, ea *engineAnchors) *EventGraph {
 		}
 	}
 	if eg.Trigger == nil {
+		// third form: a package-level map from events to handlers, filled once (a literal in a
+		// declaration or in init), consulted by the dispatching function with its event parameter
+		if trig, table := mapDispatcher(p, ea, eg.Emit); trig != nil {
+			eg.Trigger = trig
+			c.role("event dispatcher", fnKey(trig)+" via a handler map")
+			for _, fn := range p.Funcs {
+				if fn == eg.Emit || fn == eg.Resume {
+					eg.MayEmit[fn] = true
+					continue
+				}
+				if fi := ix.Info[fn]; fi != nil && (fi.TCalls[eg.Emit] || fi.TCalls[eg.Resume]) {
+					eg.MayEmit[fn] = true
+				}
+			}
+			eg.MayEmit[trig] = true
+			for k, h := range table {
+				if name := eg.ByVal[k]; name != "" {
+					eg.Cases[name] = true
+					eg.Handler[name] = h
+				}
+			}
+			return eg
+		}
 		eg.problems = append(eg.problems, "no dispatcher (switch on a GameEvent parameter) found")
 		return eg
 	}
@@ -166,7 +190,14 @@ func buildEventGraph(c *Ctx, ea *engineAnchors) *EventGraph {
 			eg.MayEmit[fn] = true
 		}
 	}
-	// handler table from the dispatcher's decision table
+	// handler table from the dispatcher's decision table; the switch may instead live in a lookup
+	// function that returns the handler as a method value
+	table := false
+	if res := eg.Trigger.Signature.Results(); res.Len() == 1 {
+		if _, isFn := res.At(0).Type().Underlying().(*types.Signature); isFn {
+			table = true
+		}
+	}
 	s := eg.summ(0)
 	paths, cut := s.Function(eg.Trigger)
 	if cut != "" {
@@ -198,9 +229,72 @@ func buildEventGraph(c *Ctx, ea *engineAnchors) *EventGraph {
 				h = e.Fn
 			}
 		}
+		if table && ps.RetInstr != nil && len(ps.RetInstr.Results) == 1 {
+			// a lookup table: the handler is the method value returned for the event
+			h = methodOfValue(ps.RetInstr.Results[0])
+		}
 		eg.Handler[ev] = h
 	}
+	if table {
+		// the dispatcher proper is the function that looks the handler up and calls it
+		lookup := eg.Trigger
+		var callers []*ssa.Function
+		for _, cl := range ix.Callers(lookup) {
+			if cl.Pkg == lookup.Pkg && len(cl.Params) == 2 && typeShort(cl.Params[1].Type()) == "pokerface.GameEvent" {
+				callers = append(callers, cl)
+			}
+		}
+		if len(callers) != 1 {
+			eg.problems = append(eg.problems, "the handler lookup is not called by exactly one dispatching function")
+			eg.Trigger = nil
+			return eg
+		}
+		eg.Trigger = callers[0]
+		c.role("event dispatcher", fnKey(eg.Trigger)+" via "+fnKey(lookup))
+		// whatever the table can hand out may emit if the handler does
+		eg.MayEmit[eg.Trigger] = true
+	}
 	return eg
+}
+
+// methodOfValue: the method behind a method value (g.onStarted): the closure over the bound
+// wrapper go/ssa synthesises, or a plain function value; nil for the nil constant.
+func methodOfValue(v ssa.Value) *ssa.Function {
+	switch x := v.(type) {
+	case *ssa.MakeClosure:
+		f, _ := x.Fn.(*ssa.Function)
+		if f == nil {
+			return nil
+		}
+		if strings.HasSuffix(f.Name(), "$bound") {
+			for _, b := range f.Blocks {
+				for _, in := range b.Instrs {
+					if call, ok := in.(ssa.CallInstruction); ok {
+						if t := call.Common().StaticCallee(); t != nil {
+							return t
+						}
+					}
+				}
+			}
+		}
+		return f
+	case *ssa.Function:
+		if strings.HasSuffix(x.Name(), "$thunk") || strings.HasSuffix(x.Name(), "$bound") {
+			for _, b := range x.Blocks {
+				for _, in := range b.Instrs {
+					if call, ok := in.(ssa.CallInstruction); ok {
+						if t := call.Common().StaticCallee(); t != nil {
+							return t
+						}
+					}
+				}
+			}
+		}
+		return x
+	case *ssa.ChangeType:
+		return methodOfValue(x.X)
+	}
+	return nil
 }
 
 func (eg *EventGraph) summ(depth int) *Summ {
@@ -292,6 +386,15 @@ func (eg *EventGraph) Outcomes(fn *ssa.Function) []outcome {
 				} else {
 					o.Kind = "fail"
 					o.Err = r.String()
+					// the error of a callee handed on as it is: what that callee can return
+					if names, ok := eg.errorsHandedOn(ps, r, 0); ok && len(names) > 0 {
+						for _, nm := range names {
+							o2 := o
+							o2.Kind, o2.Err = "refuse", nm
+							out = append(out, o2)
+						}
+						continue
+					}
 				}
 			}
 			out = append(out, o)
@@ -503,12 +606,27 @@ func substVal(v *Val, m map[string]*Val) *Val {
 		return v
 	}
 	repl := func(s string) string {
-		for k, a := range m {
-			if strings.Contains(s, k) {
-				s = strings.ReplaceAll(s, k, a.String())
-			}
+		// whole names only, longer names first ("param:t" is the head of "param:target")
+		keys := make([]string, 0, len(m))
+		for k := range m {
+			keys = append(keys, k)
 		}
-		return s
+		sort.Slice(keys, func(i, j int) bool {
+			if len(keys[i]) != len(keys[j]) {
+				return len(keys[i]) > len(keys[j])
+			}
+			return keys[i] < keys[j]
+		})
+		var pairs []string
+		for i, k := range keys {
+			pairs = append(pairs, k, "\x00"+fmt.Sprint(i)+"\x00")
+		}
+		s = replaceWholeNames(s, pairs)
+		pairs = pairs[:0]
+		for i, k := range keys {
+			pairs = append(pairs, "\x00"+fmt.Sprint(i)+"\x00", m[k].String())
+		}
+		return strings.NewReplacer(pairs...).Replace(s)
 	}
 	switch v.K {
 	case KAff:
@@ -656,4 +774,176 @@ func (eg *EventGraph) instantiate(o outcome, callee *ssa.Function, args []*Val) 
 		}
 	}
 	return o2
+}
+
+// errorsHandedOn: r, returned by path ps, is the error result of a call on that path; the answer
+// is the set of sentinel errors that callee can return (its nil returns aside). ok is false when
+// the callee can also return something that is not a sentinel.
+func (eg *EventGraph) errorsHandedOn(ps *PathSum, r *Val, depth int) ([]string, bool) {
+	if depth > 3 {
+		return nil, false
+	}
+	var callee *ssa.Function
+	rs := r.String()
+	for _, e := range ps.Events {
+		if e.Kind == "call" && e.Fn != nil && e.Fn.Blocks != nil && strings.HasPrefix(rs, e.Callee+"(") {
+			callee = e.Fn
+		}
+	}
+	if callee == nil {
+		return nil, false
+	}
+	res := callee.Signature.Results()
+	if res.Len() == 0 || typeShort(res.At(res.Len()-1).Type()) != "error" {
+		return nil, false
+	}
+	s := eg.summ(1)
+	paths, cut := s.Function(callee)
+	if cut != "" {
+		return nil, false
+	}
+	set := map[string]bool{}
+	for _, q := range paths {
+		if q.End != "return" || len(q.Ret) == 0 {
+			continue
+		}
+		rv := q.Ret[len(q.Ret)-1]
+		if rv.K == KConst && rv.S == "nil" {
+			continue
+		}
+		if name, ok := eg.c.sentinelError(rv); ok {
+			set[name] = true
+			continue
+		}
+		more, ok := eg.errorsHandedOn(q, rv, depth+1)
+		if !ok {
+			return nil, false
+		}
+		for _, m := range more {
+			set[m] = true
+		}
+	}
+	return sortedSet(set), true
+}
+
+// emitName: e is a call that emits: EmitEvent itself, or a helper whose outcomes, re-read with the
+// arguments of this call, all emit one and the same event (a wrapper that clears something and
+// then moves on with the event it is given). The name is "" when the event is not a constant.
+func (eg *EventGraph) emitName(e *Event) (string, bool) {
+	if e == nil || e.Kind != "call" || e.Fn == nil {
+		return "", false
+	}
+	if e.Fn == eg.Emit {
+		if len(e.Args) > 1 {
+			return eg.eventName(e.Args[1]), true
+		}
+		return "", true
+	}
+	if !eg.MayEmit[e.Fn] || e.Fn == eg.Resume || e.Fn == eg.Trigger {
+		return "", false
+	}
+	names := map[string]bool{}
+	for _, o := range eg.Outcomes(e.Fn) {
+		o2 := eg.instantiate(o, e.Fn, e.Args)
+		if o2.Kind == "emit" {
+			names[o2.Event] = true
+		}
+	}
+	if len(names) == 1 {
+		for n := range names {
+			return n, true
+		}
+	}
+	return "", len(names) > 0
+}
+
+// handlerMapOf: for a call of a function value looked up in a package-level map (v is the value
+// called), the functions ever stored into that map anywhere in the module, by constant key.
+func handlerMapOf(p *Prog, v ssa.Value) (*ssa.Global, map[string]*ssa.Function) {
+	if ex, ok := v.(*ssa.Extract); ok {
+		v = ex.Tuple
+	}
+	lk, ok := v.(*ssa.Lookup)
+	if !ok {
+		return nil, nil
+	}
+	ld, ok := lk.X.(*ssa.UnOp)
+	if !ok {
+		return nil, nil
+	}
+	g, ok := ld.X.(*ssa.Global)
+	if !ok {
+		return nil, nil
+	}
+	out := map[string]*ssa.Function{}
+	for _, fn := range p.Funcs {
+		if fn.Pkg == nil || fn.Pkg != g.Pkg {
+			continue
+		}
+		for _, b := range fn.Blocks {
+			for _, in := range b.Instrs {
+				mu, ok := in.(*ssa.MapUpdate)
+				if !ok {
+					continue
+				}
+				// the map being filled is stored into (or was loaded from) the global
+				if !mapIsGlobal(mu.Map, g, fn) {
+					continue
+				}
+				k, isC := mu.Key.(*ssa.Const)
+				h := methodOfValue(mu.Value)
+				if !isC || k.Value == nil || h == nil {
+					continue
+				}
+				out[k.Value.ExactString()] = h
+			}
+		}
+	}
+	return g, out
+}
+
+func mapIsGlobal(m ssa.Value, g *ssa.Global, fn *ssa.Function) bool {
+	if ld, ok := m.(*ssa.UnOp); ok && ld.X == ssa.Value(g) {
+		return true
+	}
+	// a fresh map that is stored into the global in the same function
+	if mm, ok := m.(*ssa.MakeMap); ok && mm.Referrers() != nil {
+		for _, r := range *mm.Referrers() {
+			if st, ok := r.(*ssa.Store); ok && st.Addr == ssa.Value(g) && st.Val == ssa.Value(mm) {
+				return true
+			}
+		}
+	}
+	return false
+}
+
+// mapDispatcher finds the function of the engine that takes a GameEvent, looks it up in a handler
+// map and calls what it found.
+func mapDispatcher(p *Prog, ea *engineAnchors, emit *ssa.Function) (*ssa.Function, map[string]*ssa.Function) {
+	for _, fn := range p.MethodsOf("pokerface", ea.gameImpl) {
+		if len(fn.Params) != 2 || typeShort(fn.Params[1].Type()) != "pokerface.GameEvent" || fn == emit {
+			continue
+		}
+		for _, b := range fn.Blocks {
+			for _, in := range b.Instrs {
+				call, ok := in.(*ssa.Call)
+				if !ok || call.Call.IsInvoke() || call.Call.StaticCallee() != nil {
+					continue
+				}
+				g, table := handlerMapOf(p, call.Call.Value)
+				if g == nil || len(table) < 3 {
+					continue
+				}
+				// keyed by the event parameter
+				v := call.Call.Value
+				if ex, ok := v.(*ssa.Extract); ok {
+					v = ex.Tuple
+				}
+				if lk, ok := v.(*ssa.Lookup); ok && lk.Index == ssa.Value(fn.Params[1]) {
+					return fn, table
+				}
+			}
+		}
+	}
+	return nil, nil
 }
